@@ -473,6 +473,17 @@ func stringsIntrinsic(name string, fn *ssa.Function) intrinsicFn {
 			x.ufMemo[key] = bs
 			return tup(x.byteSlice(append([]*Term{}, bs...)), nilErr)
 		}
+	case "math.Pow":
+		// concrete arguments only (the library routine goes through Float64bits)
+		return func(x *Exec, _ *ssa.Function, a []Value) Value {
+			p, q := a[0].(*Term), a[1].(*Term)
+			pf, ok1 := p.C.(float64)
+			qf, ok2 := q.C.(float64)
+			if !p.IsConc() || !q.IsConc() || !ok1 || !ok2 {
+				x.abort("UNSUPPORTED", "math.Pow of symbolic arguments")
+			}
+			return mkFloat(math.Pow(pf, qf))
+		}
 	case "math.Trunc":
 		return func(x *Exec, _ *ssa.Function, a []Value) Value {
 			t := a[0].(*Term)
